@@ -13,6 +13,16 @@ def ok_value(case, impl):
 
 
 PROPS = {
+    "C16": {
+        "topics": ["hdr"],
+        "nontrivial": lambda c, i: i.startswith("ok") and not c.startswith("(hdr.set"),
+        "kernel_slice": {"quick": 400, "thorough": 3000},
+        "rule": "SetLength/WriteTo for lengths -2..70000 (quick: every 7th plus all boundaries; thorough: all) per header type and extreme values; "
+                "ReadFrom over all 2^16 two-byte contents (four-byte headers: two arbitrary bytes in three positions), random contents, every split "
+                "point and every early end; write-then-read through one-byte-at-a-time and randomly fragmented readers; non-trivial = distinct write/read case that succeeds",
+        "trusted_base": COMMON_TB + ["modelled, validated by correspondence: io.ReadFull / binary.Read over an io.Reader delivering arbitrary chunks, fmt %04d, strconv.Atoi"],
+        "assumptions": ["a reader is modelled as the list of chunks its Read calls deliver followed by EOF (no transient errors)"],
+    },
     "C06": {
         "topics": ["pref"],
         "nontrivial": lambda c, i: i.startswith("ok") and "Fixed" not in c,
